@@ -10,3 +10,14 @@ def c01_eq_pointer_shortcut(op, impl, model, args):
         return False
     spec = model.get("spec", {})
     return "err" in spec and "ok" in impl
+
+
+def c01_self_dependent_field_under_assert(op, impl, model, args):
+    """the C04 finding c04_self_dependent_field_under_assert_hangs seen from this engine: a field that
+    depends on itself is read while the object's assertions run (get_idx ignores the Pending marker
+    while asserting), so the recursion is never reported and the native stack is exhausted
+    (stacker's mmap fails -> panic).  Recognised by: the interpreter is undecided (out of fuel), the
+    implementation died with an allocation/stack panic, and the program has an object assertion."""
+    p = impl.get("panic")
+    return bool(model.get("skip")) and isinstance(p, str) and ("mmap failed" in p or "stack" in p.lower()) \
+        and "assert" in op.get("src", "")
